@@ -166,7 +166,7 @@ func gen(a hx.Args) {
 	}
 	for i := 0; i < a.N(30000, 600000); i++ {
 		h := uint32(r.U64())
-		if r.Chance(30) {
+		if r.Chance(12) {
 			h = hx.Pick(r, hv) + uint32(r.Intn(3)) - 1
 		}
 		hx.Emit("hr %s %d %d", hx.Pick(r, []string{"k", "s", "c"}), h, genN(r))
